@@ -386,7 +386,7 @@ theorem c11_bracket_needed :
   ⟨okIs_eq _ _ (by decide +kernel), okIs_eq _ _ (by decide +kernel), by decide +kernel, by decide +kernel,
    by decide +kernel⟩
 
-/-! ### the hypothesis `SameStr` of `c11_star_list` is needed -/
+/-! ### the repaired memo defect (D26): regression witness -/
 
 /-- sid template `t` = "{a}/{b}", path template "/r/{a}/{b}", value mapping `a`: X ↦ x -/
 def mapCtx : Ctx :=
@@ -404,14 +404,14 @@ def mapCtx : Ctx :=
 
 def mapD : DCtx := ⟨mapCtx, ⟨[.paths none], [], some 0, [], true⟩⟩
 
-/-- without `SameStr`: the typed searches "X/*" and "x/*" render the SAME pattern "/r/X/*" (the
-    reverse mapping sends `x` to `X` and leaves `X` alone) but have different strings.  The code
-    globs the pair (type, pattern) once, for "X/*", whose string does not match the found Sid
-    "x/foo"; the second search is skipped as "already searched".  So `[X/*, x/*]` finds nothing
-    although `[x/*]` alone finds "x/foo": the union characterisation fails (and the repaired
-    `star_search_simple` misses a result — its `searched` cache is keyed by (type, pattern) while
-    the new filter depends on the search string). -/
-theorem c11_sameStr_needed :
+/-- REGRESSION WITNESS of D26.  The typed searches "X/*" and "x/*" render the SAME pattern
+    "/r/X/*" (the reverse mapping sends `x` to `X` and leaves `X` alone) but have different
+    strings.  While the `searched` memo of `star_search_simple` was keyed by (type, pattern) only,
+    the pair was globbed once, for "X/*", whose string does not match the found Sid "x/foo", and
+    the second search was skipped as "already searched": `[X/*, x/*]` found nothing although
+    `[x/*]` alone finds "x/foo".  With the memo keyed by (type, pattern, str(search)) the entity
+    is found again, and `c11_star_list` needs no condition relating the searches to each other. -/
+theorem c11_sameStr_regression :
     let s1 : Sid := ⟨['X','/','*'], ['t'], [(['a'], ['X']), (['b'], ['*'])]⟩
     let s2 : Sid := ⟨['x','/','*'], ['t'], [(['a'], ['x']), (['b'], ['*'])]⟩
     let x : Sid := ⟨['x','/','f','o','o'], ['t'], [(['a'], ['x']), (['b'], ['f','o','o'])]⟩
@@ -420,7 +420,7 @@ theorem c11_sameStr_needed :
     mapCtx.sidPath none s1 = .ok (some ['/','r','/','X','/','*']) ∧ mapCtx.sidPath none s2 = .ok (some ['/','r','/','X','/','*']) ∧
     mapCtx.sidOfPath ['/','r','/','X','/','f','o','o'] none = .ok x ∧
     mapD.pathsStarSids w none [s2] = .ok [x] ∧
-    mapD.pathsStarSids w none [s1, s2] = .ok [] :=
+    mapD.pathsStarSids w none [s1, s2] = .ok [x] :=
   ⟨okIs_eq _ _ (by decide +kernel), okIs_eq _ _ (by decide +kernel), okIs_eq _ _ (by decide +kernel),
    okIs_eq _ _ (by decide +kernel), okIs_eq _ _ (by decide +kernel), okIs_eq _ _ (by decide +kernel),
    okIs_eq _ _ (by decide +kernel)⟩
